@@ -106,6 +106,8 @@ class ResourceAd(_Ad):
 
     def release(self, wk, h, a, m):
         h.release()
+        if wk.cur.get("dbl"):      # Grant.release is documented as idempotent
+            h.release()
 
     def scan(self):
         if not self.pending:
@@ -262,6 +264,7 @@ class Worker(Entity):
             if rnd.get("pre"):
                 yield W.delay(rnd["pre"])
             a, m = rnd["a"], rnd["m"]
+            self.cur = rnd
             h = yield from W.ad.acquire(self, a, m)
             if h is REJECT:
                 self.state = "idle"
